@@ -26,6 +26,9 @@ CHECKS = {
  'C02': ('model_checking', 'symbolic execution of clang LLVM IR (-fno-inline) of every conversion entry point including the run-time dispatch, whose tables are built by executing their own dynamic initialisers; z3 decides bit-identity with the scalar static conversion legs, unit pair symbolic',
          'The run-time scalar path is executed with both units symbolic (all ordered pairs of all 37 types, 3 numeric types) and every path shown to return the term of the static legs with no lookup miss; array/vector/PlanarVector/Vector/SymmetricDyad/Dyad forms (in-place, copying, compile-time), quantity constructors, Value(unit), StaticValue and Create are shown component-wise identical to the scalar legs; copying forms leave their argument unchanged; read-back in the same unit is within 16 ulps.',
          'summaries for std::map construction/find/at and operator new (std::function, std::array, std::vector are executed); clang 14 IR at -O1 -fno-inline; scalar legs are the reference (their numerical correctness is C01); std::vector sizes 0,1,3; printing forms are C15', '3 C02'),
+ 'C08': ('model_checking', 'symbolic execution of clang LLVM IR of the lookup functions over tables built by executing their own dynamic initialisers (enumerator symbolic; input string arbitrary), plus ground comparison of the dumped tables with the enum declarations and with an independent unit-symbol expander',
+         'Abbreviation / operator<< are executed with a symbolic enumerator of each of the 39 enumeration types and shown never to miss the table; ParseEnumeration is executed on an arbitrary byte string (every spelling, or none); the dumped tables are total, injective and round-trip; each of ~1900 spellings denotes, by O-unit, the unit it parses to.',
+         'summaries for std::map/unordered_map construction and find, std::string/ostringstream; hash and equality of string_view are total functions of the bytes (contract); O-unit is the meaning of spellings; ground table facts are evaluated directly (the solver adds nothing there)', '3 C08'),
 }
 NA = {}
 def main():
